@@ -24,7 +24,9 @@ RULE = (
     "which that quantity is read first (ints exact, floats rtol 1e-12); (c) values previously returned to the caller are "
     "snapshotted and must not change later; (d) settings / preloads objects passed in are attribute-wise unchanged. "
     "simulator: SimulatorImaging(noise_seed=k) twice with the global numpy RNG re-seeded / advanced in between gives "
-    "identical datasets. Non-trivial = history contains a read, then a derivation or a different read, then a re-read; "
+    "identical datasets. seeded_helpers: the seeded noise helpers of dataset/preprocess.py (poisson / gaussian / complex gaussian) and "
+    "SimulatorInterferometer(noise_seed=k), each called from a different global RNG state in two runs, give identical results and leave "
+    "their inputs unchanged. Non-trivial = history contains a read, then a derivation or a different read, then a re-read; "
     "distinct = SHA-1 of the canonical history."
 )
 ASSUMPTIONS = [
@@ -1230,6 +1232,85 @@ def body_simulator(case, ctx):
 
 
 # ---------------------------------------------------------------------------------------------
+# seeded noise helpers of dataset/preprocess.py and the interferometer simulator (@given)
+# ---------------------------------------------------------------------------------------------
+@st.composite
+def seeded_helper_case(draw):
+    h = draw(st.integers(1, 5)); w = draw(st.integers(1, 5))
+    nv = draw(st.integers(1, 6))
+    return {
+        "shape": [h, w],
+        "image": draw(st.lists(gens.reals(0.5, 20), min_size=h * w, max_size=h * w)),
+        "exposure": draw(st.lists(st.sampled_from([1.0, 20.0, 300.0]), min_size=h * w, max_size=h * w)),
+        "sigma": draw(st.sampled_from([0.1, 1.0, 7.5])),
+        "uv": draw(st.lists(gens.reals(-2e4, 2e4), min_size=2 * nv, max_size=2 * nv)),
+        "seed": draw(st.integers(0, 2 ** 31 - 1)),
+        "global_seed_a": draw(st.integers(0, 2 ** 31 - 1)),
+        "global_seed_b": draw(st.integers(0, 2 ** 31 - 1)),
+        "advance": draw(st.integers(0, 50)),
+    }
+
+
+def body_seeded_helpers(case, ctx):
+    import autoarray as aa
+    from autoarray.dataset import preprocess
+    h, w = case["shape"]
+    ctx.nt(True)
+    img_raw = np.asarray(case["image"], dtype=float).reshape(h, w)
+    exp_raw = np.asarray(case["exposure"], dtype=float).reshape(h, w)
+    uv = np.asarray(case["uv"], dtype=float).reshape(-1, 2)
+    nv = uv.shape[0]
+    vis_raw = (np.arange(1, nv + 1) * 0.75) + 1j * (np.arange(nv) - 1.5)
+
+    def run(global_seed, advance):
+        np.random.seed(global_seed)
+        if advance:
+            np.random.random(advance)
+        out = {}
+        image = aa.Array2D.no_mask(values=img_raw.copy(), pixel_scales=0.5)
+        exposure = aa.Array2D.no_mask(values=exp_raw.copy(), pixel_scales=0.5)
+        vis = aa.Visibilities(visibilities=vis_raw.copy())
+        befores = (fp(np.array(image)), fp(np.array(exposure)), fp(np.array(vis)))
+        step = [0]
+
+        def scramble():
+            # every helper starts from a global RNG state that differs between the two runs (a helper that seeds
+            # leaves the generator in a seed-determined state, which would hide an unseeded helper called after it)
+            step[0] += 1
+            np.random.seed((global_seed + 7919 * step[0]) % (2 ** 32))
+            if advance:
+                np.random.random(advance)
+
+        scramble()
+        out["poisson_noise"] = np.array(preprocess.poisson_noise_via_data_eps_from(data_eps=image, exposure_time_map=exposure, seed=case["seed"]))
+        scramble()
+        out["poisson_data"] = np.array(preprocess.data_eps_with_poisson_noise_added(data_eps=image, exposure_time_map=exposure, seed=case["seed"]))
+        scramble()
+        out["gaussian_noise"] = np.array(preprocess.gaussian_noise_via_shape_and_sigma_from(shape=(h, w), sigma=case["sigma"], seed=case["seed"]))
+        scramble()
+        out["gaussian_data"] = np.array(preprocess.data_with_gaussian_noise_added(data=image, sigma=case["sigma"], seed=case["seed"]))
+        scramble()
+        out["complex_gaussian_data"] = np.array(preprocess.data_with_complex_gaussian_noise_added(data=vis, sigma=case["sigma"], seed=case["seed"]))
+        scramble()
+        sim = aa.SimulatorInterferometer(uv_wavelengths=uv.copy(), exposure_time=100.0, noise_sigma=case["sigma"], noise_seed=case["seed"])
+        ds = sim.via_image_from(image=image)
+        out["interferometer_data"] = np.array(ds.data)
+        out["interferometer_noise_map"] = np.array(ds.noise_map)
+        afters = (fp(np.array(image)), fp(np.array(exposure)), fp(np.array(vis)))
+        for name, b, a in zip(("image", "exposure-time-map", "visibilities"), befores, afters):
+            ctx.check(a == b, "seeded-helpers/input-mutated", "%s changed by the seeded noise helpers" % name)
+        return out
+
+    o1 = run(case["global_seed_a"], 0)
+    o2 = run(case["global_seed_b"], case["advance"])
+    for k in o1:
+        ctx.equal(o2[k], o1[k], "seeded-helpers/%s/depends-on-global-rng" % k, "two evaluations with seed=%d" % case["seed"])
+    # the noisy data are the clean data plus the noise drawn with the same seed
+    ctx.close(np.ravel(o1["poisson_data"]), img_raw.ravel() + np.ravel(o1["poisson_noise"]), "seeded-helpers/poisson-data-vs-noise", rtol=1e-12, atol=1e-12, what="data+noise(seed)")
+    ctx.check(not np.array_equal(o1["gaussian_data"], img_raw), "seeded-helpers/no-noise-added", "gaussian noise of sigma %s left the data unchanged" % case["sigma"])
+
+
+# ---------------------------------------------------------------------------------------------
 # interferometer factory: argument objects are not modified (@given)
 # ---------------------------------------------------------------------------------------------
 @st.composite
@@ -1314,4 +1395,6 @@ SUBCHECKS = [
              shards={"quick": 2, "thorough": 8}),
     SubCheck("simulator", body_simulator, strategy=simulator_case(), examples={"quick": 200, "thorough": 3000},
              shards={"quick": 2, "thorough": 8}),
+    SubCheck("seeded_helpers", body_seeded_helpers, strategy=seeded_helper_case(), examples={"quick": 150, "thorough": 2000},
+             shards={"quick": 1, "thorough": 4}),
 ]
